@@ -114,6 +114,15 @@ def run(res: C.Result):
                       "n": rng.choice([1, 3, 8]), "steps": steps, "max_attempts": ma, "seed": rng.randint(1, 2 ** 31),
                       "forced": rng.random() < 0.3,
                       "vetoes": [rng.random() < 0.4 for _ in range(steps * ma)], "verdicts": [rng.random() < 0.6 for _ in range(steps)]})
+    # settings changed after construction (the integrator is built with other settings and re-tuned through its public attributes); the SHIPPED
+    # distribution function itself as the move's distribution (forced refresh through functools.partial) - drawn from a separate stream
+    for i, c in enumerate(cases):
+        r9 = random.Random(res.seed ^ 0x14C000 ^ i)
+        if c["mode"] in ("verlet", "fresh", "ctx") and r9.random() < 0.4:
+            c["late"] = True
+        if c["mode"] in ("fresh", "ctx") and r9.random() < 0.5:
+            c["shipped_dist"] = True
+            c["forced"] = r9.random() < 0.6
     outs = C.run_impl_parallel("c14.py", [{"cases": cases[i::16]} for i in range(16)])
     results = [None] * len(cases)
     for j, o in enumerate(outs):
